@@ -5,7 +5,7 @@ trusted_base; conformance tests against the installed libraries live in vlib/con
 import z3
 from fractions import Fraction
 from .types import (NArr, SList, SDict, SSet, Rec, Opt, CList, FuncRef, ModRef, Unsupported, is_sym, R, I, B, S,
-                    TInt, TReal, TBool, TObj, slist_get, to_slist, key_sort_of)
+                    TInt, TReal, TBool, TObj, TTuple, slist_get, to_slist, key_sort_of)
 from . import ops
 from .ops import F, b_and, b_or, b_not, truth, values_equal
 
@@ -82,6 +82,10 @@ def _list(eng, node, x=()):
 
 @reg("builtins.enumerate")
 def _enumerate(eng, node, x, start=0):
+    if isinstance(x, SList) and x.items is None:
+        # symbolic length: the list of pairs (position + start, element)
+        i = z3.Int("_en")
+        return SList(TTuple(TInt, x.t), x.n, [z3.Lambda([i], i if (isinstance(start, int) and start == 0) else i + I(start))] + list(x.comps))
     return CList([(i + start, e) for i, e in enumerate(eng.concrete_or_fail(x))])
 
 
